@@ -8,6 +8,7 @@ import (
 	"errors"
 	"fmt"
 	"go/ast"
+	"go/token"
 	"go/types"
 	"sort"
 	"strings"
@@ -257,6 +258,13 @@ func (fc *funcContext) translateFunctionBody(typ *ast.FuncType, recv *ast.Ident,
 
 		if recv != nil && !isBlank(recv) {
 			this := "this"
+			if _, isStruct := fc.typeOf(recv).Underlying().(*types.Struct); isStruct && receiverMayChange(body, fc.pkgCtx.Defs[recv], fc.pkgCtx.Info.Info) {
+				// A struct value receiver is represented by the object the caller
+				// holds. Callers that know the static type pass a copy, but a call
+				// through an interface that holds a pointer arrives here with the
+				// pointed-to struct itself: work on a copy if the body writes to it.
+				this = fmt.Sprintf("$clone(this, %s)", fc.typeName(fc.typeOf(recv)))
+			}
 			if isWrapped(fc.typeOf(recv)) {
 				this = "this.$val" // Unwrap receiver value.
 				if _, isArray := fc.typeOf(recv).Underlying().(*types.Array); isArray {
@@ -358,4 +366,61 @@ func (fc *funcContext) translateFunctionBody(typ *ast.FuncType, recv *ast.Ident,
 	fc.pkgCtx.escapingVars = prevEV
 
 	return fmt.Sprintf("%sfunction %s(%s) {\n%s%s}", fc.funcRef.EncodeHint(), fc.funcRef, strings.Join(args, ", "), bodyOutput, fc.Indentation(1))
+}
+
+// receiverMayChange conservatively reports whether the body of a method may
+// modify its receiver variable (or take its address, which allows the same).
+func receiverMayChange(body *ast.BlockStmt, recv types.Object, info *types.Info) bool {
+	if recv == nil {
+		return false
+	}
+	rootIsRecv := func(e ast.Expr) bool {
+		for {
+			switch x := e.(type) {
+			case *ast.ParenExpr:
+				e = x.X
+			case *ast.SelectorExpr:
+				e = x.X
+			case *ast.IndexExpr:
+				e = x.X
+			case *ast.StarExpr:
+				e = x.X
+			case *ast.Ident:
+				return info.Uses[x] == recv
+			default:
+				return false
+			}
+		}
+	}
+	changed := false
+	ast.Inspect(body, func(n ast.Node) bool {
+		if changed {
+			return false
+		}
+		switch n := n.(type) {
+		case *ast.AssignStmt:
+			for _, lhs := range n.Lhs {
+				changed = changed || rootIsRecv(lhs)
+			}
+		case *ast.IncDecStmt:
+			changed = rootIsRecv(n.X)
+		case *ast.RangeStmt:
+			changed = (n.Key != nil && rootIsRecv(n.Key)) || (n.Value != nil && rootIsRecv(n.Value))
+		case *ast.UnaryExpr:
+			changed = n.Op == token.AND && rootIsRecv(n.X)
+		case *ast.SelectorExpr:
+			// A pointer-receiver method called (or bound) on the receiver or one of
+			// its fields implicitly takes its address.
+			if sel, ok := info.Selections[n]; ok && sel.Kind() != types.FieldVal {
+				if _, ptrRecv := sel.Obj().Type().(*types.Signature).Recv().Type().(*types.Pointer); ptrRecv {
+					changed = rootIsRecv(n.X)
+				}
+			}
+		case *ast.SliceExpr:
+			// Slicing an array field addresses the receiver.
+			changed = rootIsRecv(n.X)
+		}
+		return !changed
+	})
+	return changed
 }
